@@ -578,7 +578,7 @@ func (o *C12) BeforeTx(w *World, tx *PendingTx) {
 }
 
 func (o *C12) AfterTx(w *World, r *TxResult) {
-	if r.Tx.Kind != "user_cancel" {
+	if r.Tx.Kind != "user_cancel" || anteRejected(r) {
 		return
 	}
 	t := w.T()
